@@ -133,8 +133,8 @@ class C17(engine.Property):
     title = "semi-singletons: per class, instances correspond one-to-one to argument keys"
     max_steps = 60
     budget = {
-        "quick": {"runs": 30000, "wall_cap_s": 600},
-        "thorough": {"runs": 2000000, "wall_cap_s": 3000},
+        "quick": {"runs": 100000, "wall_cap_s": 600},
+        "thorough": {"runs": 3000000, "wall_cap_s": 5400},
     }
     rule = (
         "one evaluation = one seeded history of constructions, add_mapping, drop, check, "
